@@ -33,14 +33,18 @@ def baseline_failures():
     return out
 
 
+SRC = os.environ.get("SEED_SRC", "/tmp/seed")
+SUFFIX = os.environ.get("SEED_SUFFIX", "")
+
+
 def confirm(pid, which):
-    src = f"/tmp/seed/{pid}-out"
+    src = f"{SRC}/{pid}-out"
     patch = os.path.join(src, "patch.diff" if which == 1 else "patch2.diff")
     demo = os.path.join(src, "demo.py" if which == 1 else "demo2.py")
     notes = os.path.join(src, "notes.md" if which == 1 else "notes2.md")
     if not (os.path.exists(patch) and os.path.exists(demo)):
         return None
-    name = pid if which == 1 else f"{pid}-2"
+    name = (pid if which == 1 else f"{pid}-2") + (f"-{SUFFIX}" if SUFFIX else "")
     wt = tempfile.mkdtemp(prefix="vfconfirm-")
     os.rmdir(wt)
     meta = {"property": pid, "variant": which, "ran": []}
